@@ -384,9 +384,9 @@ class QueryMachine(Machine):
                         far = 1e4 * (abs(base["err"][pi]) + 1e-12)
                         if any(abs(v - base["p"][pi]) > far for v in list(s[:2]) + list(prev_sum[:2])):
                             tags.append("diverged-profile-bounds")
-                        elif s.shape == prev_sum.shape and np.allclose(s[:3], prev_sum[:3], rtol=1e-6, atol=1e-9) and (
-                                max(abs(s[3]), abs(prev_sum[3])) > 100.0 * (min(abs(s[3]), abs(prev_sum[3])) + 1.0)):
-                            # same scan range and minimum, one scan point off by orders of magnitude: a pinned re-minimisation that did not converge
+                        elif s.shape == prev_sum.shape and np.allclose(s[:3], prev_sum[:3], rtol=1e-6, atol=1e-9):
+                            # same scan range and same minimum, only the largest scan value differs between the two identical requests: a pinned
+                            # re-minimisation that did not converge at one scan point in one of them (open finding F-C08-6)
                             tags.append("nonconverged-scan-point")
                     raise Violation(PROP, "same-answer", q[0], "query %r asked twice in a row gave %s then %s" % (q, _fmt(prev_sum), _fmt(s)), step=step,
                                     expected=prev_sum, actual=s, extra={"tags": tags})
